@@ -29,7 +29,7 @@ ASSUMPTIONS = ['CPython 3.12.1 only', 'sampling over programs and option values'
 
 
 def batches(tier):
-    k = 1 if tier == 'quick' else 12
+    k = 1 if tier == 'quick' else 40
     return [{'name': 'diff-batcher', 'n': 12000 * k, 'profile': 'batcher'},
             {'name': 'diff-buffer', 'n': 8000 * k, 'profile': 'buffer'},
             {'name': 'diff-cache', 'n': 6000 * k, 'profile': 'cache'},
